@@ -16,7 +16,8 @@ for sd in seeds:
         for p in props:
             if p not in claimed or not os.path.exists('%s/kernels/%s.py' % (V, p)): out[(sd, p)] = 'no-check'; continue
             t = time.time()
-            r = subprocess.run(['python3-vt', V + '/run_check.py', '--property', p, '--tier', 'quick'], capture_output=True, text=True, cwd=V)
+            env = dict(os.environ, VERIF_EVIDENCE_DIR=V + '/work/evidence-seeds/' + sd, VERIF_REPLAY_DIR=V + '/work/replays-seeds/' + sd)
+            r = subprocess.run(['python3-vt', V + '/run_check.py', '--property', p, '--tier', 'quick'], capture_output=True, text=True, cwd=V, env=env)
             viol = [l for l in r.stdout.split('\n') if l.startswith('VIOLATION')]
             inc = [l for l in r.stdout.split('\n') if 'INCONCLUSIVE' in l or 'UNCONFIRMED' in l]
             out[(sd, p)] = 'DETECTED(%d)' % len(viol) if r.returncode == 1 and viol else ('rc=%d %s' % (r.returncode, 'inconclusive:%d' % len(inc) if inc else 'missed'))
